@@ -82,6 +82,13 @@ func (p *FakeProxy) Set(kind cache.EntryKind, hash string, data []byte, logical 
 	p.mu.Unlock()
 }
 
+// Delete makes the backend forget an object.
+func (p *FakeProxy) Delete(kind cache.EntryKind, hash string) {
+	p.mu.Lock()
+	defer p.mu.Unlock()
+	delete(p.Objects, pkey(kind, hash))
+}
+
 func (p *FakeProxy) Put(ctx context.Context, kind cache.EntryKind, hash string, logicalSize int64, sizeOnDisk int64, rc io.ReadCloser) {
 	p.step("proxy.put", hash[:6])
 	data, err := io.ReadAll(rc)
